@@ -17,7 +17,7 @@ verus! {
 pub struct Url { _p: u8 }
 /// http_types::url::ParseError: the one variant crux inspects, and the rest
 pub enum ParseError { RelativeUrlWithoutBase, Other(u8) }
-pub mod http_types { pub mod url { pub use super::super::ParseError; } pub use super::HttpTypesRequest as Request; pub use super::HttpTypesResponse as Response; pub use super::StatusCode; pub use super::Version; }
+pub mod http_types { pub mod url { pub use super::super::ParseError; } pub mod headers { pub use super::super::HeaderName; pub const CONTENT_TYPE: HeaderName = HeaderName::Other(1); pub const LOCATION: HeaderName = HeaderName::Location; } pub use super::HttpTypesRequest as Request; pub use super::HttpTypesResponse as Response; pub use super::StatusCode; pub use super::Version; }
 
 /// what `Url::parse(s)` / `base.join(s)` return: the url crate's (RFC 3986) resolution, uninterpreted
 pub uninterp spec fn parse_spec(s: Seq<char>) -> core::result::Result<Url, ParseError>;
@@ -286,6 +286,12 @@ impl Request {
     #[verifier::external_body]
     pub fn method(&self) -> (r: Method)
         ensures r == self.method_s(),
+    { unimplemented!() }
+    // ASSUMED (http-types remove_header / insert_header / append_header): the header map changes (in a way not
+    // modelled); URL, method and body do not. Present so that a conversion that edits the headers is refuted.
+    #[verifier::external_body]
+    pub fn remove_header(&mut self, name: HeaderName) -> (r: Option<HeaderValues>)
+        ensures final(self).url_s() == old(self).url_s(), final(self).method_s() == old(self).method_s(), final(self).body_content() == old(self).body_content(), final(self).body_len() == old(self).body_len(),
     { unimplemented!() }
     /// the per-request middleware stack, if any
     pub uninterp spec fn req_mw(&self) -> Option<Seq<ArcMiddleware>>;
